@@ -13,6 +13,8 @@
 Lemma: R2 + C02.R2 give the aggregate floor and the zero-width interval of groups without nonreporting units (nonparametric).
  R6 gaussian bounds stay finite for a fitted scale of 0 (location-scale form mu + sd * ppf(q), restated from C15.R4): a NaN bound has no floor.
 Not decided: finiteness in general (NaN from degenerate calibration sets) - numeric.
+ R7 same-frames: the results handler stores the frames of get_units themselves or plain copies (restated from C01.R2.binding), so the
+    floored vector is assigned to the rows it was computed for.
 """
 from __future__ import annotations
 
